@@ -587,6 +587,9 @@ impl Exec {
             let q = pos_from_observed(o);
             let kb = q.key_beside();
             self.stats.keys.push((fp64(&kb), crate::rng::fp64b(&kb), brd.get_hash()));
+            if self.watch_key == Some((fp64(&kb), crate::rng::fp64b(&kb))) && self.watch_hit.is_none() {
+                self.watch_hit = Some(q.fen_ep_if_beside());
+            }
         }
         let mut f = Fnv::new();
         f.str(a);
